@@ -334,8 +334,21 @@ class History:
                 self.note(f"read accessors of {type(h).__name__}")
                 return
             elif op == "meta":
-                which = rng.randrange(4)
+                which = rng.randrange(6)
                 self.stats["direct"] += 1
+                if which >= 4:
+                    # a mutable metadata value (a list of cuts, a dict as parsed from JSON), later edited in place
+                    def edit_mutable():
+                        cur = h.meta_data.get("cuts")
+                        if isinstance(cur, list):
+                            cur.append(rng.randint(0, 99))
+                        elif isinstance(cur, dict):
+                            cur["k%d" % rng.randint(0, 9)] = rng.randint(0, 99)
+                        else:
+                            h.meta_data["cuts"] = [1, 2] if which == 4 else {"a": [1]}
+                    self.direct(h, edit_mutable, "meta_data[...] edited in place")
+                    self.note(f"direct mutable meta edit on {type(h).__name__}")
+                    return
                 if which == 0:
                     self.direct(h, lambda: setattr(h, "name", rng.choice(["n1", "n2"])), "name=")
                 elif which == 1:
